@@ -199,8 +199,15 @@ def run(ctx):
            "out[obj_getter] = <result of _try_validate>" if ok else "validated object is not written back into the output")
     tv = F("check_output.<validate>.<_try_validate>")
     rets_tv = [s for s in function_stmts(tv) if isinstance(s, ast.Return)]
-    ok = any(isinstance(s.value, ast.Call) and isinstance(s.value.func, ast.Attribute) and s.value.func.attr == "validate" for s in rets_tv)
-    ctx.ob("R3", tv, "_try_validate returns schema.validate(...)", ok, "returns the parsed object" if ok else "parsed object discarded")
+    ok = bool(rets_tv) and all(isinstance(s.value, ast.Call) and isinstance(s.value.func, ast.Attribute) and s.value.func.attr == "validate"
+                               and txt(s.value.func.value) == "schema" for s in rets_tv)
+    cfg_tv = cfg_of(tv.node)
+    vn = {cfg_tv.node_of(enclosing_stmt(c)).id for c in _validate_sites(tv)}
+    skip = cfg_tv.must_pass(cfg_tv.entry.id, {cfg_tv.exit.id}, vn, skip_labels=("exc", "fin-exc")) if vn else [0]
+    ctx.ob("R3", tv, "_try_validate: every normal return is the result of schema.validate(...)", ok and skip is None,
+           "returns the parsed object on every path" if ok and skip is None else
+           "a path returns without calling schema.validate: a designated output reaches the caller unvalidated "
+           f"(returns: {[txt(r)[:40] for r in rets_tv]})")
     for short, label in (("check_output.<decorator>.<_wrapper>", "sync"),
                          ("check_output.<decorator>.<_wrapper>.<aio_wrapper>", "async")):
         wf = F(short)
@@ -289,5 +296,30 @@ def run(ctx):
                         and isinstance(s.value.args[0], ast.Constant) and s.value.args[0].value == "return"
                     ctx.ob("R5", f, f"{label} check_types wrapper returns _check_arg('return', out)", ok,
                            "output validated against the return annotation" if ok else f"`{txt(s)}`", f.loc(s))
+    # ---- R5b: per-annotation state must be created per annotation ---------------------------------------
+    cfc = cfg_of(ct.node)
+    rdc = cfc.reaching_defs()
+    n_store = 0
+    for loop in [s for s in function_stmts(ct) if isinstance(s, ast.For)]:
+        inside = {id(x) for x in ast.walk(loop)}
+        for st in [x for x in ast.walk(loop) if isinstance(x, ast.Assign)]:
+            tg = st.targets[0]
+            if isinstance(tg, ast.Subscript) and isinstance(st.value, ast.Name):
+                name = st.value.id
+                mutated = any(isinstance(c.func, ast.Attribute) and c.func.attr in ("append", "extend", "add", "update")
+                              and isinstance(c.func.value, ast.Name) and c.func.value.id == name for c in calls_in(loop))
+                if not mutated:
+                    continue
+                n_store += 1
+                node = cfc.node_of(st)
+                defs = rdc[node.id].get(name, set())
+                outside = [d for d in defs if cfc.nodes[d].ast is None or id(cfc.nodes[d].ast) not in inside]
+                ctx.ob("R5", ct, f"`{txt(st)[:60]}` stores a collection created in the same iteration", not outside,
+                       "every definition reaching the store is inside the loop body" if not outside else
+                       f"`{name}` may still be the object defined before the loop (line "
+                       f"{[cfc.nodes[d].lineno for d in outside]}): it is appended to in the loop and stored for several keys, so "
+                       "annotations share one list of models", ct.loc(st))
+    if n_store == 0:
+        ctx.notes.append("R5: no per-annotation collection store found in check_types")
     ctx.assume("inspect.signature / bind_partial semantics are not modelled: R2 shows the validated object is stored "
                "into the structure passed on, not that the index arithmetic designates the right argument")
